@@ -137,6 +137,8 @@ def is_trivial_alias(node: ast.AST) -> bool:
         return all(is_trivial_alias(v) for v in node.elts)
     if isinstance(node, ast.Dict):
         return not node.keys
+    if isinstance(node, ast.JoinedStr):
+        return all(isinstance(v, ast.Constant) or (isinstance(v, ast.FormattedValue) and v.format_spec is None and is_trivial_alias(v.value)) for v in node.values)
     if isinstance(node, ast.IfExp):
         return is_trivial_alias(node.test) and is_trivial_alias(node.body) and is_trivial_alias(node.orelse)
     if isinstance(node, ast.Call):
@@ -416,6 +418,8 @@ class PathAnalysis(flow.Analysis):
             if id(site_node) not in self.in_loop and not how.startswith("aug:"):
                 term = f"{term}{SEP}{hashlib.sha1(text.encode()).hexdigest()[:4]}"
             self.defs[term] = (text, value)
+            if isinstance(value, (ast.Tuple, ast.List, ast.Dict, ast.Set, ast.JoinedStr, ast.ListComp, ast.DictComp, ast.SetComp)) and not how:
+                state = state.add_lit(f"{term} is not None")  # a display is never None
         else:
             self.defs[term] = (how, site_node)
         return state.with_env(name, term)
@@ -427,6 +431,11 @@ class PathAnalysis(flow.Analysis):
             for i, t in enumerate(target.elts):
                 if isinstance(t, ast.Name):
                     v = None
+                    if value is not None and isinstance(value, ast.Name):
+                        # `code, text = error` where `error` is known to be a display of the same length
+                        sv = subst(value, state)
+                        if isinstance(sv, (ast.Tuple, ast.List)) and len(sv.elts) == len(target.elts):
+                            value = sv
                     if value is not None:
                         if isinstance(value, (ast.Tuple, ast.List)) and len(value.elts) == len(target.elts):
                             v = value.elts[i]
@@ -496,6 +505,9 @@ class PathAnalysis(flow.Analysis):
         if isinstance(stmt, ast.ExceptHandler):
             if stmt.name:
                 state = self._bind(state, stmt.name, None, stmt, how="caught")
+                t = state.term(stmt.name)
+                if t:
+                    state = state.add_lit(f"{t} is not None")
             return [state]
         if isinstance(stmt, ast.Return):
             if stmt.value is not None:
@@ -513,6 +525,19 @@ class PathAnalysis(flow.Analysis):
         if self.mark_handlers:
             state = state.add_event("caught:" + "/".join(self.handler_names(handler)))
         return self.simple(state, handler)
+
+    def leave_handler(self, state, handler):
+        # `as e` is unbound when the handler ends: nothing can test it any more, so what is known about the exception
+        # object is dropped unless another variable still refers to it (`failure = e`).  The binding itself is kept as a
+        # mark that the path went through this handler (rules read it that way).
+        if not handler.name:
+            return state
+        t = state.term(handler.name)
+        if t and not any(t in v for k, v in state.env if k != handler.name):
+            lits = frozenset(l for l in state.lits if t not in l)
+            if lits != state.lits:
+                return replace(state, lits=lits)
+        return state
 
     def exc_state(self, state, node):
         if self.exc_after_events:
@@ -563,6 +588,11 @@ class PathAnalysis(flow.Analysis):
             state = self.assign_target(state, test.target, test.value, test)
             test = test.target
         lit = norm_lit(subst(test, state), pol)
+        k = _closed_truth(lit)
+        if k is False:
+            return []  # the test is decided by constants the environment has substituted (a flag that is None/False here)
+        if k is True:
+            return [state]
         if self.prune and self.stable(lit):
             neg = negate_text(lit)
             if neg in state.lits:
@@ -587,6 +617,14 @@ class PathAnalysis(flow.Analysis):
                     break
         if self.track_cancel and has_await(node):
             tags.add(CANCEL)
+        # EAFP lookups: inside a try that names KeyError/LookupError, a subscript load may raise KeyError
+        # (only there: outside such a try the fallibility model of each rule decides what a lookup can do)
+        if self.try_stack and any(isinstance(x, ast.Subscript) and isinstance(x.ctx, ast.Load) for x in ast.walk(node) if not isinstance(x, (ast.FunctionDef, ast.AsyncFunctionDef, ast.Lambda))):
+            for t in reversed(self.try_stack):
+                names = {n.split(".")[-1] for h in t.handlers for n in self.handler_names(h)}
+                if names & {"KeyError", "LookupError"}:
+                    tags.add("KeyError")
+                    break
         return tags
 
     # ------------------------------------------------------------------ queries
@@ -600,6 +638,68 @@ class PathAnalysis(flow.Analysis):
                 txt = self.defs[t][0]
                 out = out.replace(t, "<" + self.origin(txt, depth + 1) + ">")
         return out
+
+
+_CLOSED_CACHE: Dict[str, Optional[bool]] = {}
+
+
+def _closed_truth(lit: str) -> Optional[bool]:
+    """Truth value of a literal that mentions constants only (`None is not None`, `not False`, `0 == 1`), else None."""
+    if lit in _CLOSED_CACHE:
+        return _CLOSED_CACHE[lit]
+    res: Optional[bool] = None
+    try:
+        n = ast.parse(lit, mode="eval").body
+    except SyntaxError:
+        n = None
+
+    def ev(x):
+        if isinstance(x, ast.Constant):
+            return x.value
+        if isinstance(x, ast.Tuple):
+            return tuple(object() for _ in x.elts)  # an immutable display: never None, truthy iff non-empty
+        if isinstance(x, (ast.List, ast.Set, ast.Dict)):
+            return _MUTABLE  # never None; its emptiness can change through method calls the environment does not see
+        if isinstance(x, ast.JoinedStr):
+            raise ValueError
+        if isinstance(x, ast.UnaryOp) and isinstance(x.op, ast.Not):
+            return not ev(x.operand)
+        if isinstance(x, ast.UnaryOp) and isinstance(x.op, ast.USub) and isinstance(x.operand, ast.Constant) and isinstance(x.operand.value, (int, float)):
+            return -x.operand.value
+        if isinstance(x, ast.BoolOp):
+            vals = [ev(v) for v in x.values]
+            return all(vals) if isinstance(x.op, ast.And) else any(vals)
+        if isinstance(x, ast.Compare) and len(x.ops) == 1:
+            a, b = ev(x.left), ev(x.comparators[0])
+            op = x.ops[0]
+            if isinstance(op, ast.Is):
+                return a is b if (a is None or b is None or isinstance(a, bool) or isinstance(b, bool)) else _undecided()
+            if isinstance(op, ast.IsNot):
+                return a is not b if (a is None or b is None or isinstance(a, bool) or isinstance(b, bool)) else _undecided()
+            if isinstance(a, (tuple, _M)) or isinstance(b, (tuple, _M)):
+                _undecided()
+            if isinstance(op, ast.Eq):
+                return a == b
+            if isinstance(op, ast.NotEq):
+                return a != b
+        raise ValueError
+
+    def _undecided():
+        raise ValueError
+
+    class _M:
+        def __bool__(self):
+            raise ValueError
+
+    _MUTABLE = _M()
+
+    if n is not None:
+        try:
+            res = bool(ev(n))
+        except (ValueError, TypeError):
+            res = None
+    _CLOSED_CACHE[lit] = res
+    return res
 
 
 def run_paths(fn_node, event_of=None, fallible_pred=None, cls=PathAnalysis, stmt_event_of=None, **attrs):
